@@ -49,9 +49,8 @@ def check_property(pid, prog, meta, tier, cache, extra_progs=(), t0=None, thorou
     known_keys = {k["key"]: k for k in known if k.get("status") == "known"}
     insts = []
     per_rule = {}
-    for rid, floor in spec["rules"]:
+    for rid, floor, sel in spec["rules"]:
         res = run_rules(prog, [rid], cache)[rid]
-        sel = RULES[rid].get("select", {}).get(pid)
         if sel:
             res = [r for r in res if sel(r)]
         decided = [r for r in res if r["verdict"] in ("ok", "violation")]
@@ -68,16 +67,10 @@ def check_property(pid, prog, meta, tier, cache, extra_progs=(), t0=None, thorou
     extra_meta = []
     for (p2, m2, c2) in extra_progs:
         extra_meta.append(m2)
-        for rid, floor in spec["rules"]:
-            if RULES[rid].get("lib_only_features") and not RULES[rid]["lib_only_features"](m2):
+        for rid, floor, sel in spec["rules"]:
+            if RULES[rid].get("needs") and not all(f in m2["features"].split(",") for f in RULES[rid]["needs"]):
                 continue
-            try:
-                res = run_rules(p2, [rid], c2)[rid]
-            except CheckerError as e:
-                if RULES[rid].get("needs") and not all(f in m2["features"].split(",") for f in RULES[rid]["needs"]):
-                    continue
-                raise
-            sel = RULES[rid].get("select", {}).get(pid)
+            res = run_rules(p2, [rid], c2)[rid]
             if sel:
                 res = [r for r in res if sel(r)]
             have = {r["key"]: r for r in insts}
@@ -121,7 +114,7 @@ def check_property(pid, prog, meta, tier, cache, extra_progs=(), t0=None, thorou
     cov = {
         "explanation": spec["explanation"],
         "obligations": obligations,
-        "discharged": len(ok) + sum(1 for r in viols if r["key"] in known_keys) * 0,
+        "discharged": len(ok),
         "known_findings": [r["key"] for r in viols if r["key"] in known_keys],
         "undecided": [r["key"] for r in und],
         "checker_cmd": "python3 check.py %s --tier %s" % (pid, tier),
